@@ -41,6 +41,7 @@ pub fn prop() -> HistProp {
         mk: |_, _, _| Box::new(C13 { nontrivial: false }),
         extra: Some((4, |t| registry_scenario_strategy(&prop().profile.clone()(t), (prop().cfgs)()))),
         many_batches: 0,
+        zero_arrival: 0,
     }
 }
 
